@@ -145,7 +145,6 @@ pub fn intersect_body(ka: u16, kb: u16) {
     let exp = member(&a, &p) && member(&b, &p);
     a.verif_intersect(b);
     let got = member(&a, &p);
-    kani::cover!(true, "witness: end of harness reached");
     kani::cover!(exp, "witness: probe in both candidates");
     kani::cover!(!exp, "witness: probe outside the intersection");
     kani::cover!(matches!(p, V::Null) && exp, "witness: null in both candidates");
@@ -159,7 +158,6 @@ pub fn normalize_body(ka: u16) {
     let exp = member(&a, &p);
     a.verif_normalize();
     let got = member(&a, &p);
-    kani::cover!(true, "witness: end of harness reached");
     kani::cover!(exp, "witness: probe in candidate");
     std::mem::forget(a);
     assert!(got == exp, "normalizing never changes which values a candidate contains");
@@ -172,22 +170,11 @@ pub fn exclude_body(ka: u16) {
     let before = member(&a, &p);
     a.verif_exclude_single_value(&x);
     let after = member(&a, &p);
-    kani::cover!(true, "witness: end of harness reached");
     kani::cover!(before && p.n() != x.n(), "witness: another member survives");
     kani::cover!(before && p.n() == x.n(), "witness: excluded value was a member");
     std::mem::forget(a);
     assert!(!after || before, "exclusion result is contained in the original");
     assert!(!(before && p.n() != x.n()) || after, "exclusion keeps every other value");
-}
-
-macro_rules! h {
-    ($name:ident, $unw:expr, $body:ident ( $($arg:expr),* )) => {
-        #[kani::proof]
-        #[kani::unwind($unw)]
-        pub fn $name() {
-            $body($($arg),*);
-        }
-    };
 }
 
 include!("gen_c06.rs");
